@@ -837,6 +837,7 @@ def check(run):
     run_link(run, binary, jbin, run.tier)
     t1 = time.time()
     run_e2e(run, binary, run.tier)
+    socket_options_leg(run, binary)
     t2 = time.time()
     run_bincode(run, binary, jbin, run.tier)
     t3 = time.time()
@@ -856,6 +857,80 @@ def check(run):
     # every case already ran the property oracle on the implementation; when only a proof obligation or a correspondence case
     # broke, look for a failing input among the largest messages that still count as legitimate
     return run.finish(search=lambda: search_link(run, binary))
+
+
+def socket_options_leg(run, binary):
+    """The model of the encrypted link (Model/RemoteSession.v, Model/Frame.v) has no deadline: a thread blocked in a socket read or
+    write waits until data arrives or the connection closes, however long the other side stays silent (an unanswered prompt, a long
+    listing on the other side).  Tie: one real remote sync under `strace -f -e trace=setsockopt`; neither the boss nor the doer may put
+    a receive / send timeout on a socket.  When one does, the search holds the link idle for longer than that deadline on the real
+    CLI (the doer process is stopped with SIGSTOP and continued) and reports the run that loses its messages."""
+    import subprocess, tempfile, shutil, re as _re, signal, time as _t
+    if not shutil.which('strace'):
+        run.count('socket-options:strace-missing(skipped)')
+        return
+    tmp = tempfile.mkdtemp(prefix='c14so_', dir=vlib.CACHE)
+    try:
+        fake = e2e.fake_ssh_dir(tmp)
+        os.makedirs(os.path.join(tmp, 's'))
+        open(os.path.join(tmp, 's', 'f'), 'wb').write(b'x' * 70000)
+        log = os.path.join(tmp, 'strace.log')
+        r = e2e.run_cli(binary, ['localhost:' + tmp + '/s/', 'localhost:' + tmp + '/d/'], fake_ssh=fake, timeout=120,
+                        prefix=['strace', '-f', '-e', 'trace=setsockopt', '-o', log])
+        text = open(log, errors='replace').read() if os.path.exists(log) else ''
+        if r['exit'] != 0 or 'setsockopt' not in text:
+            run.count('socket-options:strace-unusable(skipped)')       # ptrace not permitted here: nothing to compare
+            return
+        opts = sorted(set(_re.findall(r'setsockopt\(\d+, \w+, (\w+)', text)))
+        run.count('socket-options:runs')
+        run.case(('socket-options', tuple(opts)), True, sample={'socket_options_set': opts})
+        run.traces_validated += 1
+        deadlines = []
+        for name, val in _re.findall(r'setsockopt\(\d+, SOL_SOCKET, (SO_RCVTIMEO\w*|SO_SNDTIMEO\w*), ([^)]*)\)', text):
+            m = _re.search(r'tv_sec=(\d+)', val)
+            if m:
+                sec = int(m.group(1))
+            else:
+                m = _re.search(r'"((?:[^"\\]|\\.)*)"', val)
+                try:
+                    raw = m.group(1).encode('latin1').decode('unicode_escape').encode('latin1') if m else b''
+                    sec = int.from_bytes(raw[:8].ljust(8, b'\0'), 'little')
+                except Exception:
+                    sec = 0
+            deadlines.append((name, sec))
+        if not deadlines:
+            return
+        secs = max(x[1] for x in deadlines)
+        run.broke('correspondence', 'socket-options', 'a socket of the boss-doer link is given a deadline (%s): the model has none' % ', '.join('%s=%ss' % d for d in deadlines[:4]))
+        if secs > 100:
+            return
+        # search: hold the link idle for longer than the deadline
+        src = os.path.join(tmp, 'big')
+        os.makedirs(src)
+        with open(os.path.join(src, 'sparse'), 'wb') as f:
+            f.truncate(600 * 1024 * 1024)
+        e = dict(os.environ, PATH=fake + os.pathsep + os.environ.get('PATH', ''), FAKE_SSH_BINARY=binary, NO_COLOR='1')
+        p = subprocess.Popen([binary, src + '/', 'localhost:' + tmp + '/bigd/'], env=e, stdout=subprocess.PIPE, stderr=subprocess.STDOUT, start_new_session=True)
+        _t.sleep(0.5)
+        doers = [int(x) for x in subprocess.run(['pgrep', '-g', str(os.getpgid(p.pid)), '-f', '--', '--doer'], stdout=subprocess.PIPE, text=True).stdout.split()]
+        for d in doers:
+            os.kill(d, signal.SIGSTOP)
+        _t.sleep(secs + 3)
+        for d in doers:
+            try:
+                os.kill(d, signal.SIGCONT)
+            except ProcessLookupError:
+                pass
+        try:
+            out, _ = p.communicate(timeout=240)
+        except subprocess.TimeoutExpired:
+            os.killpg(p.pid, 9)
+            out, _ = p.communicate()
+        if doers and p.returncode != 0:
+            run.fail('C14 (idle link): the doer was silent for %d s (stopped and continued) and the messages in flight were lost: exit %s: %s' % (
+                secs + 3, p.returncode, out.decode('utf-8', 'replace')[-300:]), {'driver': 'idle-link', 'idle_s': secs + 3, 'deadlines': deadlines[:4]})
+    finally:
+        shutil.rmtree(tmp, ignore_errors=True)
 
 
 def replay(run, path):
